@@ -772,6 +772,10 @@ impl<'a> Parser<'a> {
         let bytes = self.re.as_bytes();
         // get the character after the open paren
         let b = bytes[ix];
+        // `(?(1)..)`, `(?('name')..)` and `(?(<name>)..)` test whether a group has matched; anything
+        // else is a regex condition - also a plain back-reference such as `(?(\1)..)`, which has
+        // to match the text like any other condition
+        let is_group_test = is_digit(b) || b == b'\'' || b == b'<';
         let (mut next, condition) = if is_digit(b) {
             self.parse_numbered_backref(ix, &|group| Expr::Backref(group))?
         } else if b == b'\'' {
@@ -790,7 +794,7 @@ impl<'a> Parser<'a> {
         let has_false_branch = self.re[end..].starts_with('|');
         if end == next && !has_false_branch {
             // Backreference validity checker
-            if let Expr::Backref(group) = condition {
+            if let (true, &Expr::Backref(group)) = (is_group_test, &condition) {
                 let after = self.check_for_close_paren(end)?;
                 return Ok((after, Expr::BackrefExistsCondition(group)));
             } else {
@@ -808,10 +812,9 @@ impl<'a> Parser<'a> {
         } else {
             (end, Expr::Empty)
         };
-        let inner_condition = if let Expr::Backref(group) = condition {
-            Expr::BackrefExistsCondition(group)
-        } else {
-            condition
+        let inner_condition = match condition {
+            Expr::Backref(group) if is_group_test => Expr::BackrefExistsCondition(group),
+            condition => condition,
         };
 
         let after = self.check_for_close_paren(end)?;
